@@ -23,7 +23,8 @@
     Outside the model: the real VBK/BTC trees below the command interface (abstracted to the reference-count
     machine), finalization, altchain invalidate/revalidate; exercised on the implementation by the direct oracle. *)
 From Coq Require Import List ZArith NArith Bool Permutation.
-From VB Require Import Pop.SmDefs Pop.SmProofs Pop.SmWf Pop.SmCmp Pop.SmAll Pop.SmMarks Pop.SmAbort Pop.SmCmpTotal.
+From VB Require Import Pop.SmDefs Pop.SmProofs Pop.SmWf Pop.SmCmp Pop.SmAll Pop.SmMarks Pop.SmAbort Pop.SmCmpTotal Pop.SmRefs.
+Import ListNotations.
 Local Open Scope Z_scope.
 
 Theorem C02_group_exec_atomic :
@@ -125,3 +126,18 @@ Theorem C02_connect_never_aborts :
     find ccmd (blocks _ _ s) par = Some pb -> find ccmd (blocks _ _ s) i = None -> exists s', c_connect s i par dup gs = Ok s'.
 Proof. exact connect_total. Qed.
 Print Assumptions C02_connect_never_aborts.
+
+(** The reference list of one BTC block (heights of the VBK blocks whose applied VTBs reference it): any interleaving of
+    AddBtcBlock executes and - not necessarily LIFO - un-executes leaves exactly the multiset of the still applied
+    commands; "erase the last entry <= h" does not (Pop/SmRefs.v). *)
+Theorem C02_btc_refs_are_applied_multiset : forall ops k, wf ops [] -> cnt k (run ops []) = bal k ops.
+Proof. exact refs_are_applied_multiset. Qed.
+Print Assumptions C02_btc_refs_are_applied_multiset.
+
+Theorem C02_btc_refs_remove_last_le_refuted :
+  let ops := [Add 9; Add 3; Rel 9] in
+  wf ops [] /\ run ops [] = [3] /\ cnt 3 (run ops []) = bal 3 ops /\
+  rem_last_le 9 [9; 3] = [9] /\ cnt 3 (rem_last_le 9 [9; 3]) <> bal 3 ops /\
+  rem_last_le 3 [9; 3] = rem_eq 3 [9; 3].
+Proof. exact remove_last_le_refuted. Qed.
+Print Assumptions C02_btc_refs_remove_last_le_refuted.
